@@ -87,6 +87,77 @@ func init() {
 		st.clock = sec
 		return StructV{f: []Value{BV(64, 0), sec, Pointer{}}}
 	}
+	// reflect: only what gobgp uses on this path (Kind/Uint/Int/IsNil of ValueOf(x)); the Value is
+	// represented by a struct whose first field holds the interface it was made from
+	models["reflect.ValueOf"] = func(e *Engine, st *State, args []Value, call *ssa.Call, pos token.Pos) Value {
+		iv, ok := args[0].(Iface)
+		if !ok {
+			panic(unsupported{"reflect.ValueOf of non-interface"})
+		}
+		return StructV{f: []Value{iv, Pointer{}, BV(64, 0)}}
+	}
+	reflIface := func(v Value) Iface {
+		sv, ok := v.(StructV)
+		if !ok || len(sv.f) == 0 {
+			panic(unsupported{"reflect.Value not produced by the ValueOf model"})
+		}
+		iv, ok := sv.f[0].(Iface)
+		if !ok {
+			panic(unsupported{"reflect.Value not produced by the ValueOf model"})
+		}
+		return iv
+	}
+	models["(reflect.Value).Kind"] = func(e *Engine, st *State, args []Value, call *ssa.Call, pos token.Pos) Value {
+		iv := reflIface(args[0])
+		if iv.typ == nil {
+			return BV(64, 0)
+		}
+		k := uint64(0)
+		switch u := iv.typ.Underlying().(type) {
+		case *types.Basic:
+			k = map[types.BasicKind]uint64{types.Bool: 1, types.Int: 2, types.Int8: 3, types.Int16: 4, types.Int32: 5, types.Int64: 6, types.Uint: 7,
+				types.Uint8: 8, types.Uint16: 9, types.Uint32: 10, types.Uint64: 11, types.Uintptr: 12, types.Float32: 13, types.Float64: 14, types.String: 24, types.UnsafePointer: 26}[u.Kind()]
+		case *types.Array:
+			k = 17
+		case *types.Chan:
+			k = 18
+		case *types.Signature:
+			k = 19
+		case *types.Interface:
+			k = 20
+		case *types.Map:
+			k = 21
+		case *types.Pointer:
+			k = 22
+		case *types.Slice:
+			k = 23
+		case *types.Struct:
+			k = 25
+		}
+		return BV(64, k)
+	}
+	models["(reflect.Value).Uint"] = func(e *Engine, st *State, args []Value, call *ssa.Call, pos token.Pos) Value {
+		return ZExt(term(reflIface(args[0]).val), 64)
+	}
+	models["(reflect.Value).Int"] = func(e *Engine, st *State, args []Value, call *ssa.Call, pos token.Pos) Value {
+		return SExt(term(reflIface(args[0]).val), 64)
+	}
+	models["(reflect.Value).IsNil"] = func(e *Engine, st *State, args []Value, call *ssa.Call, pos token.Pos) Value {
+		iv := reflIface(args[0])
+		switch v := iv.val.(type) {
+		case Pointer:
+			return Bool(v.obj == 0)
+		case MapV:
+			return Bool(v.obj == 0)
+		case SliceV:
+			return Bool(v.obj == 0)
+		case FuncV:
+			return Bool(v.fn == nil && v.name == "")
+		case Iface:
+			return Bool(v.typ == nil)
+		}
+		panic(unsupported{"reflect.Value.IsNil on a non-nillable kind"})
+	}
 	models["os.Hostname"] = func(e *Engine, st *State, args []Value, call *ssa.Call, pos token.Pos) Value {
 		return TupleV{StringV{conc: "verifhost"}, Iface{}}
 	}
